@@ -774,10 +774,20 @@ fn write_project(rng: &mut Rng, dir: &Path) -> Vec<String> {
         // ignored lines (they count in `total` only)
         std::fs::write(dir.join("src/ign.rs"), "let a = 1;\n// sloc-guard:ignore-next 2\nlet b = 2;\nlet c = 3;\nlet d = 4;\n").unwrap();
         files.push("src/ign.rs".to_string());
+        // over the limit, with comment and blank lines: its raw and its enforced counts differ as soon
+        // as comments or blank lines count
+        std::fs::write(dir.join("src/cmt_big.rs"), "// one\n// two\nlet a = 1;\nlet b = 2;\n\n// three\nlet c = 3;\nlet d = 4;\nlet e = 5;\n\n// four\nlet f = 6;\n").unwrap();
+        files.push("src/cmt_big.rs".to_string());
     }
     let reason = rng.pick(REASONS).replace('\\', "\\\\").replace('"', "\\\"").replace('\n', "\\n");
     let sreason = rng.pick(REASONS).replace('\\', "\\\\").replace('"', "\\\"").replace('\n', "\\n");
     let mut cfg = format!("version = \"2\"\n[content]\nmax_lines = 5\nwarn_threshold = 0.5\nextensions = [\"rs\", \"aa\", \"bb\"]\n[[content.rules]]\npattern = \"**/big_*.rs\"\nmax_lines = 7\nreason = \"{reason}\"\n[[content.rules]]\npattern = \"**/wide_warn.rs\"\nmax_lines = 1000\nwarn_threshold = 0.5\n[structure]\nmax_files = 3\n[[structure.rules]]\nscope = \"lib\"\nmax_files = 2\nreason = \"{sreason}\"\n");
+    {
+        // (a fork: the other choices of the stream stay what they were)
+        let mut fr = rng.fork();
+        let (sc, sb) = (fr.chance(1, 2), fr.chance(1, 2));
+        cfg = cfg.replacen("[content]\n", &format!("[content]\nskip_comments = {sc}\nskip_blank = {sb}\n"), 1);
+    }
     if rng.chance(2, 3) {
         cfg += "[languages.zed]\nextensions = [\"aa\", \"q\"]\nsingle_line_comments = [\"#\"]\n[languages.abc]\nextensions = [\"aa\", \"bb\"]\nsingle_line_comments = [\"//\"]\n[languages.mno]\nextensions = [\"bb\"]\nsingle_line_comments = [\";\"]\n";
     }
